@@ -178,8 +178,10 @@ class C12(E1Prop):
         before, after = rec['refs_before'], rec['refs_after']
         new_refs = [r for r in after if r not in before]
         table = w.pr_table()
+        # (the PRs this very job created: one delivery may run several
+        # jobs, and the table is read after all of them)
         new_children = [p for p in table if p['author'] == ROBOT and
-                        p['id'] not in rec['prs_before']]
+                        p['id'] in (rec.get('new_prs') or [])]
         for p in table:
             if p['author'] == ROBOT or p['id'] not in rec['prs_before']:
                 continue
